@@ -187,6 +187,21 @@ CHECKS = {
   note='trusted: the probe code embedded in the generated scripts, Scope.tla as the documented resolution rule; '
        'output leaf names are not compared',
   design='5/C19'),
+ 'C17': dict(
+  technique='TLA+ reference semantics of version specifier sets + design model of simplify_specifiers (Specs.tla) '
+            'model-checked with TLC over every set within the bound; the same sets run through the real function and '
+            'through pkg_config(requires=) + the real pkg-config with a fake dependency at every test version; '
+            'generated .pc files queried with the real pkg-config and the output split by the TLA+ model '
+            'PkgConfLang.tla; all recorded results validated by TLC (PkgConfig_Trace.tla)',
+  text='Exhaustive on the version side (all 988 sets of <= 3 specifiers over 6 operators x 3 versions, acceptance '
+       'tested at 7 points incl. the gaps): TLC shows where the design model of simplify_specifiers leaves the '
+       'reference and decides for the real function raised-iff-unsatisfiable and same accepted versions; Requires '
+       'lines are evaluated by the real pkg-config against a fake dependency at each version. On the text side options, '
+       'link options and include directories over the hot alphabet must come back, after sh-style splitting, as '
+       'exactly the declared flags from both the installed and the -uninstalled file.',
+  note='trusted: PkgConfLang.tla (sh-style splitting of pkg-config output), pkgconf 1.8.1 as the tool, the version '
+       'grid (integers and halves); non-ASCII bytes are not generated (pkg-config escapes them bytewise)',
+  design='5/C17'),
 }
 
 NOT_YET = {}
